@@ -15,6 +15,7 @@ import TallyVerif.Driver.Fs
 import TallyVerif.Driver.View
 import TallyVerif.Driver.Discover
 import TallyVerif.Driver.Migrate
+import TallyVerif.Driver.Legacy
 /-! `tvdrv`: one JSON object per line in, one canonical JSON object per line out. -/
 open Lean TallyVerif.Driver
 
@@ -47,6 +48,7 @@ def dispatch (j : Json) : Json :=
   | "spaces" => handleSpaces j
   | "discover" => handleDiscover j
   | "migrate" => TallyVerif.Driver.Mig.handleMigrate j
+  | "legacycsv" => TallyVerif.Driver.Leg.handleLegacyCsv j
   | "vieweval" => handleViewEval j
   | "views" => handleViews j
   | "viewkeys" => handleViewKeys j
